@@ -50,6 +50,7 @@ def c03_classify(c, i):
         pass
     if "R" in st: out.append("rename-rotation")
     if "T" in st: out.append("truncation")
+    if "reuse" in i: out.append("inode-reuse-late-file")
     if "away" in i: out.append("file-leaves-directory")
     if "gone" in i: out.append("job-released")
     if "saved" in i: out.append("offsets-saved-at-kill")
@@ -78,7 +79,8 @@ def _case(c):
         elif op == "A": steps.append((op, int(c[k + 1]), bytes.fromhex(c[k + 2]) if c[k + 2] != "-" else b"")); k += 3
         elif op == "R": steps.append((op, int(c[k + 1]), int(c[k + 2]))); k += 3
         elif op == "K": steps.append((op, int(c[k + 1]))); k += 2
-        elif op in ("O", "D") : steps.append((op, int(c[k + 1]))); k += 2
+        elif op in ("O", "D", "MV"): steps.append((op, int(c[k + 1]))); k += 2
+        elif op == "DS": steps.append((op, int(c[k + 1]), bytes.fromhex(c[k + 2]) if c[k + 2] != "-" else b"")); k += 3
         elif op == "RO": steps.append((op, int(c[k + 1]), int(c[k + 2]))); k += 3
         else: steps.append((op,)); k += 1
     return table, steps
@@ -91,6 +93,9 @@ def _explain(c, i, m):
     Returns None when the summary is missing or the Lean oracle computed a different one."""
     ti, tm = _tail(i), _tail(m)
     if ti is None or ti != tm or "stuck" in i or any(t.startswith("saved-") for t in i):
+        return None
+    # a recorded finding only excuses a trace the model itself reproduces step by step
+    if m and m[0].startswith("reject@"):
         return None
     try:
         table, steps = _case(c)
@@ -149,7 +154,7 @@ def sig_trunc_multistream(c, i, m, k):
 
 CFG = {
     "manifest": {
-        "text": "Proof: Lean theorems (Props/C03.lean) over the transition system Model/FileRestart (files, jobs, per-stream committed offsets, offsets file, in-flight events; ops append / rename-rotate / truncate / readTurn (the C06 worker model) / deliver / ack / commit / save / crash / restart): no_loss_partial (every admitted complete line is acked in some run or handed to the output after the restart, for every history without truncation in which at each crash every stream of a file with an un-acked line has an entry in the saved offsets; includes lines appended and files renamed while down), no_loss_single_stream, no_false_skip; for single-stream pipelines truncation_restart (detection puts the job back to 0, commits of all events in flight are ignored) and truncation_delivery (every line written after a detected truncation is delivered); release_after_all_read (maintenance releases a job only when nothing is unread on its descriptor); the full statements NoLoss / TruncationRestartAnyStreams with no_loss_counterexample (a1 b2 a3) and truncation_multistream_counterexample. Tie: the real file.Plugin + pipeline run in child processes that are SIGKILLed and restarted; the observed boundary trace (PassEvent results, output hand-offs, acks, commits, offsets file at the kill) is replayed through the model's step relation on every run.",
+        "text": "Proof: Lean theorems (Props/C03.lean) over the transition system Model/FileRestart (files, jobs, per-stream committed offsets, offsets file, in-flight events; ops append / rename-rotate / truncate / readTurn (the C06 worker model) / deliver / ack / commit / save / crash / restart): no_loss_partial (every admitted complete line is acked in some run or handed to the output after the restart, for every history without truncation in which at each crash every stream of a file with an un-acked line has an entry in the saved offsets; includes lines appended and files renamed while down), no_loss_single_stream, no_false_skip; for single-stream pipelines truncation_restart (detection puts the job back to 0, commits of all events in flight are ignored) and truncation_delivery (every line written after a detected truncation is delivered); release_after_all_read (maintenance releases a job only when nothing is unread on its descriptor); late_discovery_from_zero / late_file_read_from_start (a file found after the start phase is read from 0 whatever the loaded offsets say); the full statements NoLoss / TruncationRestartAnyStreams with no_loss_counterexample (a1 b2 a3) and truncation_multistream_counterexample. Tie: the real file.Plugin + pipeline run in child processes that are SIGKILLed and restarted; the observed boundary trace (PassEvent results, output hand-offs, acks, commits, offsets file at the kill) is replayed through the model's step relation on every run.",
         "note": "Known finding on the unchanged tree: with several streams in one file an un-acked line of a stream that has no entry in the saved offsets is skipped on restart (witness in corpus/C03). Trusted: Lean kernel + standard axioms; fdmodel compilation; the harness; OS semantics of rename/inode identity and of SIGKILL (page cache survives); per-stream in-order acknowledgement by the output (C02). Assumed, not proved: the pipeline hands every event it accepted to the output (C04).",
         "technique": "Lean 4 proof (inductive invariant over all op sequences, composed with the C06 reader model) + process-level trace correspondence (kill -9 / restart of the real plugin)",
     },
@@ -158,7 +163,7 @@ CFG = {
     "classify": c03_classify,
     "signatures": {"c03_unlisted_stream": sig_unlisted_stream, "c03_trunc_multistream": sig_trunc_multistream},
     "trace": True,
-    "rule": "histories from one PRNG: 1-3 files (plus files created by rename rotation and new files while down), 1-3 stream values, appends with lines split between writes, acks chosen per (file, stream) head, waits for an offsets save, kill at a step / after the k-th boundary record / at a PRNG instant, downtime appends + rename rotations, restart until idle; dedicated truncation scenarios; lines written in several writes with the job idle over maintenance passes in between; files that leave the watched directory right after an append (moved out with/without a new file under the old name, unlinked); async and sync persistence; 1-3 workers, read buffers 16/64/4096, 1-4 processors. distinct = distinct case line; non-trivial = a kill happened, the second run reached idle and the input offered at least one event",
+    "rule": "histories from one PRNG: 1-3 files (plus files created by rename rotation and new files while down), 1-3 stream values, appends with lines split between writes, acks chosen per (file, stream) head, waits for an offsets save, kill at a step / after the k-th boundary record / at a PRNG instant, downtime appends + rename rotations, restart until idle; dedicated truncation scenarios; lines written in several writes with the job idle over maintenance passes in between; late files whose inode number equals a stale offsets entry (inode reuse arranged on the scratch filesystem, else not evaluated); files that leave the watched directory right after an append (moved out with/without a new file under the old name, unlinked); async and sync persistence; 1-3 workers, read buffers 16/64/4096, 1-4 processors. distinct = distinct case line; non-trivial = a kill happened, the second run reached idle and the input offered at least one event",
     "corr_name": "FileRestart.step? replay = observed boundary trace of file.Plugin + pipeline (PassEvent results, SeqIDs, hand-offs, commits, offsets file at the kill, idleness)",
     "trusted_base": [
         "OS: rename keeps the inode, a new file gets a fresh inode within one case, SIGKILL loses no written page",
